@@ -234,6 +234,7 @@ def _rest_of_check(ctx, fi, mlwa, aunp):
     ctx.attempt(forward.check_all, module_suffixes=('unpack.unpackers', 'tract.tract_parse', 'tract.tract'))
     ctx.attempt(common.flag_prefix_tests)
     ctx.attempt(dup_scan_and_cut)
+    ctx.attempt(common.dedup_idioms, [f for f in ctx.repo.funcs.values() if f.module.name.endswith(('tract.tract_parse', 'unpack.unpackers'))])
     ctx.attempt(lockdown, ctx.repo.func('Tract.parse'), only=('include_lot_divs', 'suppress_lot_divs', 'parse_qq'))
     ctx.attempt(common.embedded_case_consistency, modules=('rgxlib.lots', 'rgxlib.aliquots'))
     ctx.attempt(_chain_language)
